@@ -73,13 +73,15 @@ Cleanup ==
   /\ reply' = Rep("n", NoVal, 0, 0)
   /\ UNCHANGED now
 
+Relay == reply' = Rep("n", NoVal, 0, Cardinality(Present)) /\ UNCHANGED <<now, m>>
+
 Tick == now < MaxNow /\ now' = now + 1 /\ reply' = Rep("ok", NoVal, 0, 0) /\ UNCHANGED m
 
 Next ==
   \/ \E k \in Keys, v \in Vals, t \in TTLs : Write(k, v, t)
   \/ \E k \in Keys, s \in BOOLEAN : Read(k, s)
   \/ \E k \in Keys : Delete(k)
-  \/ ExpireAll \/ DeleteAll \/ LenOp \/ Tick \/ Cleanup
+  \/ ExpireAll \/ DeleteAll \/ LenOp \/ Tick \/ Cleanup \/ Relay
 
 vars == <<now, m, reply>>
 Spec == Init /\ [][Next]_vars
